@@ -46,6 +46,23 @@ ScnX(C, before, wt, ku, kb, finIn, payIn, wr, splitBi) ==
 ScnW(C, before, wt, ku, kb, finIn, payIn, wr) == ScnX(C, before, wt, ku, kb, finIn, payIn, wr, FALSE)
 Scn(C, before, wt, ku, kb, finIn, payIn) == ScnW(C, before, wt, ku, kb, finIn, payIn, "all")
 
+\* the application reads the incoming streams through tokio's AsyncRead in fixed-size records (a read regularly starts with a partly
+\* filled buffer): header and the first three payload bytes in one chunk, a longer chunk behind
+PLong == <<97, 98, 99, 100, 101, 102, 103, 104, 105, 106, 107, 108, 109>>
+ScnTokio(C, rec, kind) ==
+    LET base == ScnX(C, 0, TRUE, Len(UniHdr(C)) + 3, Len(BiHdr(C)) + 3, TRUE, PLong, "all", FALSE)
+    IN [base EXCEPT !.wt_prog = [i \in DOMAIN base.wt_prog |->
+                                   IF base.wt_prog[i].op = kind THEN [op |-> kind, tokio_rec |-> rec] ELSE base.wt_prog[i]]]
+\* a second session on the same connection: the CONNECT on stream 0 is accepted as the session, a CONNECT on stream 4 arrives through
+\* accept_bi and is answered 200; an incoming bidirectional stream then names session 4 in its header
+ScnTwo(kb, finIn) ==
+    LET hdr == BiHdr(4) bytes == hdr \o PIn IN
+    [part |-> "T", role |-> "server", connect_sid |-> 0, before |-> 0, wt |-> TRUE, fin_in |-> finIn, pay_in |-> PIn, uni_sid |-> 14, bi_sid |-> 8,
+     cfg |-> [grease |-> FALSE, wt |-> TRUE, datagram |-> TRUE, ext_connect |-> TRUE, write |-> "all"], default_handler |-> Plain,
+     wt_prog |-> <<[op |-> "accept_bi"], [op |-> "accept_bi"]>>,
+     steps |-> <<Dl(2, PeerSettings), Dl(0, Frame(1, ConnectSec)), Dl(4, Frame(1, ConnectSec))>>
+               \o SplitDeliver(8, bytes, kb) \o (IF finIn THEN <<[op |-> "fin", sid |-> 8]>> ELSE <<>>)]
+
 VARIABLE out
 Init == out = <<>>
 Next == /\ out = <<>>
@@ -56,6 +73,8 @@ Next == /\ out = <<>>
            \/ \E C \in {0, 4} : \E ku \in {0, 2} : out' = Scn(C, 0, FALSE, ku, 0, TRUE, PIn)
            \* the application splits the incoming bidirectional stream before reading it (header and payload cut at every offset)
            \/ \E C \in {0, 256}, finIn \in {TRUE} : \E kb \in 0..Len(BiHdr(C) \o PIn) : out' = ScnX(C, 0, TRUE, 0, kb, finIn, PIn, "all", TRUE)
+           \/ \E C \in {0, 256}, rec \in {8, 2, 5}, kind \in {"accept_uni", "accept_bi"} : out' = ScnTokio(C, rec, kind)
+           \/ \E kb \in {0, 1, 2, 3, 4}, finIn \in {TRUE} : out' = ScnTwo(kb, finIn)
            \* the transport takes the server's writes (stream headers included) one or three bytes at a time
            \/ \E C \in {0, 252, 256, 65536}, wr \in {"1", "3"}, finIn \in BOOLEAN : out' = ScnW(C, 0, TRUE, 0, 0, finIn, PIn, wr)
 Spec == Init /\ [][Next]_out
